@@ -200,7 +200,9 @@ func c02Scope(id *int) *gen.Scope {
 		NextID:  id,
 		Builtin: true,
 		// literals whose sums and products round (so that re-association is visible), next to exact ones
-		NumLits: []string{"0", "1", "2", "3", "5", "7", "10", "100", "0.5", "2.5", "1.25", "0.1", "0.2", "0.3", "0.7", "3.3", "10000000000000000", "12"},
+		NumLits: []string{"0", "1", "2", "3", "5", "7", "10", "100", "0.5", "2.5", "1.25", "0.1", "0.2", "0.3", "0.7", "3.3", "10000000000000000", "12",
+			// beyond the range of a float64 (an infinity) and below it (zero)
+			"1" + strings.Repeat("0", 309), "0." + strings.Repeat("0", 330) + "1"},
 	}
 }
 
